@@ -483,6 +483,9 @@ func Diff(a, b Snap, fields ...string) []string {
 		if want["mtime"] && na.Mtime != nb.Mtime && na.Type != "l" {
 			out = append(out, fmt.Sprintf("%q: mtime %d vs %d", k, na.Mtime, nb.Mtime))
 		}
+		if want["fmtime"] && na.Mtime != nb.Mtime && na.Type == "f" {
+			out = append(out, fmt.Sprintf("%q: file mtime %d vs %d", k, na.Mtime, nb.Mtime))
+		}
 		if want["mtime_ns"] && na.MtimeNs != nb.MtimeNs && na.Type != "l" {
 			out = append(out, fmt.Sprintf("%q: mtime_ns %d vs %d", k, na.MtimeNs, nb.MtimeNs))
 		}
